@@ -15,28 +15,6 @@ open SerfModel.Atomic SerfModel.Gen SerfProofs.Lamport
 /-- Counter value after the first `k` steps of a schedule. -/
 def counterAt (s : Sys) (sched : List Nat) (k : Nat) : W := (run P s (sched.take k)).counter
 
-theorem noOverflow_take (sched : List Nat) : ∀ (s : Sys) (k : Nat), NoOverflow P s sched → NoOverflow P s (sched.take k) := by
-  induction sched with
-  | nil => intro s k h; simpa using h
-  | cons t rest ih =>
-    intro s k h
-    cases k with
-    | zero => trivial
-    | succ k => exact ⟨h.1, ih _ k h.2⟩
-
-theorem noOverflow_drop (sched : List Nat) : ∀ (s : Sys) (k : Nat), NoOverflow P s sched →
-    NoOverflow P (run P s (sched.take k)) (sched.drop k) := by
-  induction sched with
-  | nil => intro s k h; simpa [run] using h
-  | cons t rest ih =>
-    intro s k h
-    cases k with
-    | zero => simpa [run] using h
-    | succ k => simpa [run] using ih _ k h.2
-
-theorem run_append (s : Sys) (a b : List Nat) : run P s (a ++ b) = run P (run P s a) b := by
-  simp [run, List.foldl_append]
-
 /-- **Never backwards.** For every initial value, every set of threads with any
 calls, every schedule without an overflowing step: the counter after `i` steps is
 at most the counter after `j ≥ i` steps. -/
